@@ -96,6 +96,24 @@ def _raw_cast(x, y, n_bits):
         return lambda m: np.asarray(m).astype(object)   # (np.array(np.int64(..), dtype=object) would keep the NumPy scalar)
     return lambda m: m
 
+def _rescale(val, shift, n_frac, exact=False):
+    """
+    Returns `val` * 2**shift for the raw functions. A negative shift gives a fractional value that set_val() rounds: the product
+    is computed in float64 when that is exact and with exact rationals otherwise (`exact`, see utils.needs_exact_scale).
+    """
+    if shift < 0:
+        return utils.scale_raw(val, shift, exact=exact)
+    precision_cast = (lambda m: np.array(m, dtype=object)) if n_frac >= _n_word_max else (lambda m: m)
+    return val * precision_cast(2**shift)
+
+def _needs_exact_sum(x, y, n_frac):
+    """
+    True if the sum or difference of the raw values of `x` and `y`, rescaled to `n_frac` fractional bits with a negative shift
+    for at least one of them, can have more than 53 significant bits (its float64 evaluation would round before set_val() does).
+    """
+    dropped_bits = max(x.n_frac - n_frac, y.n_frac - n_frac, 0)
+    return dropped_bits > 0 and max(x.n_word + n_frac - x.n_frac, y.n_word + n_frac - y.n_frac) + 2 + dropped_bits > 53
+
 def _function_over_one_var(repr_func, raw_func, x, out=None, out_like=None, sizing='optimal', method='raw', optimal_size=None, **kwargs):
     if not isinstance(x, Fxp):
         x = Fxp(x)
@@ -328,7 +346,8 @@ def add(x, y, out=None, out_like=None, sizing='optimal', method='raw', **kwargs)
     def _add_raw(x, y, n_frac):
         precision_cast = (lambda m: np.array(m, dtype=object)) if n_frac >= _n_word_max else (lambda m: m)
         raw_cast = _raw_cast(x, y, max(x.n_word + n_frac - x.n_frac, y.n_word + n_frac - y.n_frac) + 2)
-        return raw_cast(x.val) * precision_cast(2**(n_frac - x.n_frac)) + raw_cast(y.val) * precision_cast(2**(n_frac - y.n_frac))
+        exact = _needs_exact_sum(x, y, n_frac)
+        return np.asarray(_rescale(raw_cast(x.val), n_frac - x.n_frac, n_frac, exact) + _rescale(raw_cast(y.val), n_frac - y.n_frac, n_frac, exact))
 
     if not isinstance(x, Fxp):
         x = Fxp(x)
@@ -350,7 +369,8 @@ def sub(x, y, out=None, out_like=None, sizing='optimal', method='raw', **kwargs)
     def _sub_raw(x, y, n_frac):
         precision_cast = (lambda m: np.array(m, dtype=object)) if n_frac >= _n_word_max else (lambda m: m)
         raw_cast = _raw_cast(x, y, max(x.n_word + n_frac - x.n_frac, y.n_word + n_frac - y.n_frac) + 2)
-        return raw_cast(x.val) * precision_cast(2**(n_frac - x.n_frac)) - raw_cast(y.val) * precision_cast(2**(n_frac - y.n_frac))
+        exact = _needs_exact_sum(x, y, n_frac)
+        return np.asarray(_rescale(raw_cast(x.val), n_frac - x.n_frac, n_frac, exact) - _rescale(raw_cast(y.val), n_frac - y.n_frac, n_frac, exact))
 
     if not isinstance(x, Fxp):
         x = Fxp(x)
@@ -372,7 +392,8 @@ def mul(x, y, out=None, out_like=None, sizing='optimal', method='raw', **kwargs)
     def _mul_raw(x, y, n_frac):
         precision_cast = (lambda m: np.array(m, dtype=object)) if n_frac >= _n_word_max else (lambda m: m)
         raw_cast = _raw_cast(x, y, x.n_word + y.n_word)
-        return raw_cast(x.val) * raw_cast(y.val) * precision_cast(2**(n_frac - x.n_frac - y.n_frac))
+        product = np.asarray(raw_cast(x.val) * raw_cast(y.val))
+        return _rescale(product, n_frac - x.n_frac - y.n_frac, n_frac, utils.needs_exact_scale(product, n_frac - x.n_frac - y.n_frac))
 
     if not isinstance(x, Fxp):
         x = Fxp(x)
